@@ -60,6 +60,18 @@ Boundaries and secondary paths (third seeded round).  The law is a statement abo
  * the judged batch is made of calls of 500 / 250 / 7 / 1 iterations (CHUNKS);
  * BOUNDARY cases (few runs, deterministic): horizon / grid ending AT t0 (number, one-element list, one-point ndarray, [t0, t0], a grid
    from before t0 to t0): every reported state is the initial state; a horizon before t0 is tagged and not judged.
+Unit of time (fourth seeded round).  Multiplying every rate by c and dividing every time by c leaves every probability above unchanged:
+ * 6 of the 32 chain cases and 3 of the 16 SIR cases of a quick run (every 5th; they REPLACE unit-time cases, the number of statistical
+   cases and the levels are what they were) and 40 % of the chain / SIR clock-replay cases are stated in another unit, c in {2^-30, 2^10,
+   2^-40, 2^-20, 2^30} taken in turn (TIME_UNITS; powers of two: the scaled case is exactly the unit case in another unit).  They are
+   judged like every other case, by the exact law of the numbers they contain (signature suffix `:time-unit:2^k`); histories, forms,
+   grids and chunking apply to them as to the others.  An absolute threshold on a rate (`np.allclose(rates, 0)`: a path frozen when every
+   event rate is <= 1e-8, seeded C05-d1) or on a time shows in these cases; in the replay it is a path that stops although the modelled
+   step goes on (`step:stop-reason`, `draws:expo-count`);
+ * a scaled chain / SIR replay case is also run as its TWIN in unit time under the same numpy seed (`unit_twin`): the same states, event
+   times equal to the scaled ones times c EXACTLY (powers of two).  Path-by-path equivariance is what the pure step model gives
+   (`stepProbs_time_unit` for the choice, `exp_scale_mul` for the clocks), not what the property - a law - states: a difference is a
+   broken correspondence `replay:time-unit-twin-differs`, never a violation.
 All cells of a case share the case's level (a case with more requested times has more, narrower cells): the total false-alarm
 probability of a run is unchanged (ALPHA_TOTAL over chain + SIR + identity + parallel + boundary cases).
 """
@@ -80,7 +92,7 @@ LEAN = {"module": "Pygom.Props.C05",
         "required": ["Pygom.C05.min_of_indep_exp", "Pygom.C05.first_clock", "Pygom.C05.step_law", "Pygom.C05.exp_scale",
                      "Pygom.C05.model_step_is_first_min", "Pygom.C05.model_step_time", "Pygom.C05.model_step_law",
                      "Pygom.C05.model_choice_law", "Pygom.C05.firstMin_cast", "Pygom.C05.first_min_iff",
-                     "Pygom.C05.stepProbs_sum_to_one", "Pygom.C05.finalSizePMF_sums_to_one", "Pygom.C05.finalSizePMF_nonneg"]}
+                     "Pygom.C05.stepProbs_sum_to_one", "Pygom.C05.stepProbs_time_unit", "Pygom.C05.finalSizePMF_sums_to_one", "Pygom.C05.finalSizePMF_nonneg"]}
 BUDGET = {"quick": {"identity": 16, "pairs": 25, "law_draws": 20000, "seeded_draws": 1500, "replay": 48, "chain": 32, "sir": 16, "runs": 6000,
                     "par": 4, "par_runs": 500, "warm": 200, "boundary": 8, "boundary_runs": 40},
           "thorough": {"identity": 64, "pairs": 100, "law_draws": 200000, "seeded_draws": 6000, "replay": 640, "chain": 160, "sir": 80,
@@ -101,7 +113,9 @@ RULE = ("identity: random (seed, rate) pairs, rates log-uniform in [1e-3, 1e3]; 
         "left-over pre_tau and epsilon / other grid / sibling instance / distributions then numbers / integrate / deepcopy; target "
         "values assigned as dict / list / array / pairs / two dicts), x0 as list / tuple / ndarray of int / float / int32, t0 as "
         "float64 / int64 / float32, horizon / grid forms as above; a chain case is non-trivial with >= 1000 runs (300 in parallel) and a judged time after t0; `par` "
-        "small-population cases of `par_runs` paths through parallel=True; replay cases are sessions of the shared engine")
+        "small-population cases of `par_runs` paths through parallel=True; replay cases are sessions of the shared engine; every 5th chain / SIR "
+        "case and 40% of the chain / SIR replay cases are stated in another UNIT OF TIME (rates * c, all times / c, c in 2^-30, 2^10, 2^-40, 2^-20, "
+        "2^30 in turn; integer-valued time plans are replaced by float ones there)")
 ASSUMPTIONS = ["numpy's standard_exponential produces independent Exp(1) variates (hypothesis of the clock theorems; floats treated as reals)",
                "parallel path / seed=True: generators seeded from OS entropy (one per draw on the unchanged tree) give independent uniform streams; "
                "the parallel cases run pygom's parallel code path on dask's synchronous scheduler (in-process)",
@@ -217,6 +231,41 @@ GRID_FORMS = ["array", "array", "list", "tuple", "array_f32"]
 CHUNKS = [500, 500, 500, 500, 500, 250, 7, 1]        # iterations per solve_stochast call of the judged batch
 
 
+# UNIT OF TIME (fourth seeded round).  The law of the state at a requested time is invariant under a change of the unit of time: with every
+# rate multiplied by c and every time (t0, horizon, grid) divided by c the occupancy / final-size / first-step probabilities are THE SAME
+# numbers (Q t is unchanged).  Some statistical cases and some clock-replay cases are therefore stated in another unit: c = 2^-30
+# (~ 9.3e-10: a process of O(1) per 30 years timed in seconds), 2^-40, 2^-20 (~ 1e-6), 2^10 (~ 1e3) and 2^30 (times of ~ 1e-9).  Powers
+# of two: the scaling is exact in binary floating point (the scaled case IS the unit case in another unit, parameters stay dyadic and
+# the exact SIR pmf stays small), and the reference probabilities are computed from the scaled numbers as for any other case.  Nothing
+# in the property singles out a magnitude of rates or times: any absolute threshold on a rate or a time in the code under test
+# (`np.allclose(rates, 0)`, `np.isclose(t, grid)`) shows here and nowhere else.
+TIME_UNITS = [2.0 ** -30, 2.0 ** 10, 2.0 ** -40, 2.0 ** -20, 2.0 ** 30, 2.0 ** -30]
+CHAIN_SCALED_EVERY = 5          # chain cases 2, 7, 12, ... of a run are stated in another unit (6 of 32 in the quick tier: every unit once)
+SIR_SCALED_EVERY = 5            # SIR cases 1, 6, 11, ... (3 of 16)
+REPLAY_SCALED_SHARE = 0.4       # of the chain / SIR clock-replay cases
+
+
+def unit_name(c):
+    return "2^%d" % int(round(math.log2(float(c))))
+
+
+def rescale(g, c):
+    """the statistical case `g` (chain or SIR, stated in unit time) stated in another unit of time: rates * c, times / c (exact: c is a
+    power of two).  Integer-valued requested times stay what they are only if they stay integers - callers do not scale such plans."""
+    c = float(c)
+    g["time_unit"] = c
+    g["t0"] = float(g["t0"]) / c
+    g["times"] = [float(t) / c for t in g["times"]]
+    if g["kind"] == "chain":
+        g["params"] = {k: float(v) * c for k, v in g["params"].items()}
+    else:
+        g["beta"], g["gamma"], g["T"] = float(g["beta"]) * c, float(g["gamma"]) * c, float(g["T"]) / c
+    h = g.get("history")
+    if h:
+        h["params_other"] = {k: (float(v) * c if k != "N" else float(v)) for k, v in h["params_other"].items()}
+    return g
+
+
 def other_rate(r, v):
     """another value of the grid, at least a factor 2 away: a batch simulated with it has a visibly different law"""
     c = [w for w in RATE_GRID if w >= 2 * v or w <= v / 2]
@@ -298,8 +347,10 @@ def gen_times(r, hk, shape, t0, t1):
     return {"values": v, "form": form}
 
 
-def gen_chain(r, runs, alpha, *, warm=200, session_share=0.5, max_n=30, plan=None, chunk=None):
+def gen_chain(r, runs, alpha, *, warm=200, session_share=0.5, max_n=30, plan=None, chunk=None, unit=None):
     hk, shape = plan if plan is not None else r.choice(CHAIN_TIME_PLAN)
+    if unit is not None and (hk == "int" or shape == "int"):
+        hk, shape = ("grid", "after_t0") if hk == "grid" else ("scalar", None)       # integer-valued times do not survive a change of unit
     slow = shape == "int" or hk == "int"                 # integer-valued times: rates from the lower half of the grid
     nf = r.choice([1, 1, 2])
     fams, pv, x0 = [], {}, []
@@ -347,10 +398,12 @@ def gen_chain(r, runs, alpha, *, warm=200, session_share=0.5, max_n=30, plan=Non
     gen_forms(r, g, t0)
     if r.random() < session_share:
         g["history"] = gen_history(r, {p: other_rate(r, v) for p, v in pv.items()}, warm, [v + 3 if v else 0 for v in x0])
+    if unit is not None:
+        rescale(g, unit)
     return g
 
 
-def gen_sir(r, runs, alpha, *, warm=200, session_share=0.5, s0_choices=(3, 5, 8, 12, 15, 20, 30, 40), plan=None, chunk=None):
+def gen_sir(r, runs, alpha, *, warm=200, session_share=0.5, s0_choices=(3, 5, 8, 12, 15, 20, 30, 40), plan=None, chunk=None, unit=None):
     hk, shape = plan if plan is not None else r.choice(SIR_TIME_PLAN)
     s0 = r.choice(list(s0_choices))
     i0 = r.choice([1, 1, 2, 3])
@@ -391,6 +444,8 @@ def gen_sir(r, runs, alpha, *, warm=200, session_share=0.5, s0_choices=(3, 5, 8,
     if r.random() < session_share:
         f = 4.0 if R0 <= 1.5 else 0.25                 # the other basic reproduction number is on the other side of 1.5
         g["history"] = gen_history(r, {"beta": beta * f, "gamma": gamma * r.choice([1.0, 0.5, 2.0]), "N": pop}, warm, [s0 + 2, i0 + 1, r0])
+    if unit is not None:
+        rescale(g, unit)
     return g
 
 
@@ -432,8 +487,13 @@ def make_cases(rng, tier, budget, factor=1):
     ident = [gen_identity(sub(), budget["pairs"], budget["law_draws"], alpha, budget.get("seeded_draws", 0)) for _ in range(budget["identity"] * factor)]
     # the time plans are cycled, from an offset that depends on the seed: every run has every shape of horizon / grid
     oc, os_, ob = rng.randrange(len(CHAIN_TIME_PLAN)), rng.randrange(len(SIR_TIME_PLAN)), rng.randrange(len(BOUNDARY_PLAN))
-    chain = [gen_chain(sub(), budget["runs"], alpha, warm=warm, plan=CHAIN_TIME_PLAN[(oc + i) % len(CHAIN_TIME_PLAN)]) for i in range(budget["chain"] * factor)]
-    sir = [gen_sir(sub(), budget["runs"], alpha, warm=warm, plan=SIR_TIME_PLAN[(os_ + i) % len(SIR_TIME_PLAN)]) for i in range(budget["sir"] * factor)]
+    # every CHAIN_SCALED_EVERY-th chain case and every SIR_SCALED_EVERY-th SIR case is stated in another unit of time (units in turn, from an
+    # offset that depends on the seed); the number of statistical cases - and with it every case's level - is what it was
+    ou = rng.randrange(len(TIME_UNITS))
+    cunit = lambda i: TIME_UNITS[(ou + i // CHAIN_SCALED_EVERY) % len(TIME_UNITS)] if i % CHAIN_SCALED_EVERY == 2 else None
+    sunit = lambda i: TIME_UNITS[(ou + 2 * (i // SIR_SCALED_EVERY)) % len(TIME_UNITS)] if i % SIR_SCALED_EVERY == 1 else None
+    chain = [gen_chain(sub(), budget["runs"], alpha, warm=warm, plan=CHAIN_TIME_PLAN[(oc + i) % len(CHAIN_TIME_PLAN)], unit=cunit(i)) for i in range(budget["chain"] * factor)]
+    sir = [gen_sir(sub(), budget["runs"], alpha, warm=warm, plan=SIR_TIME_PLAN[(os_ + i) % len(SIR_TIME_PLAN)], unit=sunit(i)) for i in range(budget["sir"] * factor)]
     par = [gen_par(sub(), budget.get("par_runs", 500), alpha) for _ in range(budget.get("par", 0) * factor)]
     bnd = [gen_boundary(sub(), budget.get("boundary_runs", 40), alpha, BOUNDARY_PLAN[(ob + i) % len(BOUNDARY_PLAN)]) for i in range(budget.get("boundary", 0) * factor)]
     # one of each kind first (the evidence samples the first non-trivial cases), the long statistical cases before the short ones
@@ -458,17 +518,25 @@ def make_cases(rng, tier, budget, factor=1):
             g = gen_chain(r, 2, 0.0, session_share=0.0, plan=("scalar", None))
             # mostly run to absorption (a path that ends before the horizon); sometimes a horizon AT the initial time (no step, no draw)
             T_ = g["t0"] if r.random() < 0.06 else g["times"][-1] * 1.5 + 1.0
+            cu = r.choice(TIME_UNITS) if r.random() < REPLAY_SCALED_SHARE else None      # the same case in another unit of time
+            if cu is not None:
+                rescale(g, cu)
+                T_ = T_ / cu
             c = {"kind": "replay", "model": "chain", "spec": chain_spec(g["families"]), "params": g["params"], "x0": g["x0"],
                  "meta": {"states": [s for f in g["families"] for s in f["states"]]},
                  "sim": {"mode": "exact", "t0": g["t0"], "T": T_, "np_seed": g["np_seed"], "epsilon": None, "pre_tau": None}}
             if r.random() < 0.4:
-                c["sim"]["time"] = SC.gen_grid_time(r, g["t0"], g["times"][-1] * 1.5 + 1.0, max_points=5, after_t0=0.5, past=(0.5, 1, 3))
+                c["sim"]["time"] = SC.gen_grid_time(r, g["t0"], g["times"][-1] * 1.5 + 1.0 / (cu or 1.0), max_points=5, after_t0=0.5, past=(0.5, 1, 3))
+            if cu is not None:
+                c["time_unit"] = cu
         else:
-            g = gen_sir(r, 2, 0.0, session_share=0.0, plan=("scalar", None))
+            g = gen_sir(r, 2, 0.0, session_share=0.0, plan=("scalar", None), unit=r.choice(TIME_UNITS) if r.random() < REPLAY_SCALED_SHARE else None)
             c = {"kind": "replay", "model": "sir", "spec": sir_spec(g["rate_kind"]),
                  "params": {"beta": g["beta"], "gamma": g["gamma"], "N": g["pop"]}, "x0": [g["s0"], g["i0"], g["r0"]],
                  "meta": {"states": ["S", "I", "R"]},
-                 "sim": {"mode": "exact", "t0": g["t0"], "T": 1.0e6, "np_seed": g["np_seed"], "epsilon": None, "pre_tau": None}}
+                 "sim": {"mode": "exact", "t0": g["t0"], "T": g["T"], "np_seed": g["np_seed"], "epsilon": None, "pre_tau": None}}
+            if g.get("time_unit"):
+                c["time_unit"] = g["time_unit"]
         c["max_steps"] = budget.get("max_steps", SC.MAX_STEPS)
         cases.append(c)
         n += 1
@@ -632,6 +700,7 @@ def run_replay(case):
     recorded clocks with the rates a FRESH instance, given the parameters in force, computes at the visited states"""
     spec = case["spec"]
     tags, mism, viol = ["kind:replay", "replay:" + case.get("model", "generated")], [], []
+    if case.get("time_unit"): tags += ["time-unit-scaled", "replay:time-unit:" + unit_name(case["time_unit"])]
     state = {"accepted": 0, "multi": 0, "lr": None, "refs": {}}
 
     def reference_rates(call):
@@ -683,10 +752,45 @@ def run_replay(case):
                 tags.append("zero_rate_event_present")
         return True
 
-    SC.run_session(case, judge, "C05", tags, mism, viol, max_steps=case.get("max_steps", SC.MAX_STEPS))
+    calls = SC.run_session(case, judge, "C05", tags, mism, viol, max_steps=case.get("max_steps", SC.MAX_STEPS))
+    if case.get("time_unit") and not case.get("session") and calls and calls[0].tr.error is None:
+        unit_twin(case, calls[0], mism, tags)
     return {"nontrivial": state["accepted"] >= 5 and state["multi"] >= 1, "mismatches": mism[:8], "violations": viol, "tags": tags,
             "sample": {"kind": "replay", "model": case.get("model"), "x0": case["x0"], "accepted_steps": state["accepted"], "steps_with_2+_clocks": state["multi"],
                        "session": bool(case.get("session"))}}
+
+
+def unit_twin(case, call, mism, tags):
+    """a replay case stated in another unit of time (c a power of two) against its TWIN in unit time under the same numpy seed: the
+    same clocks are drawn, so the twin visits the same states and its event times are the scaled ones times c - exactly (scaling by a
+    power of two commutes with every rounding of rate = k x, scale = 1 / rate, E * scale, t + dt).  What the pure step model says of a
+    change of unit; the property (a law) does not state it path by path: a difference is a broken correspondence, not a violation."""
+    c = float(case["time_unit"])
+    ts = call.ts
+    if ts["kind"] not in ("float", "np_f64", "list1", "tuple1", "list", "tuple", "array"):
+        tags.append("time-unit-twin:not-run(integer-valued time argument)")
+        return
+    twin = dict(case, params={k: (float(v) / c if k != "N" else float(v)) for k, v in case["params"].items()},
+                sim=dict(case["sim"], t0=float(case["sim"]["t0"]) * c, T=float(case["sim"]["T"]) * c))
+    twin["sim"].pop("time", None)
+    t_ts = {"kind": ts["kind"], "values": [float(v) * c for v in ts["values"]]}
+    tr = SC.traced_run(SC.build_model(twin), SC.time_obj(t_ts), True, call.op["np_seed"], iterations=call.sim["iterations"], max_steps=case.get("max_steps", SC.MAX_STEPS))
+    tags.append("time-unit-twin")
+    if tr.error is not None or len(tr.jumps) != len(call.tr.jumps):
+        mism.append({"what": "replay:time-unit-twin-differs", "detail": "unit %s: the twin in unit time %s" % (unit_name(c), "raised %r" % tr.error if tr.error is not None else "made %d paths for %d" % (len(tr.jumps), len(call.tr.jumps)))})
+        return
+    for p, (a, b) in enumerate(zip(call.tr.jumps, tr.jumps)):
+        if a["truncated"] or b["truncated"]:
+            continue
+        if a["X"].shape != b["X"].shape or not np.array_equal(a["X"], b["X"]) or not np.array_equal(np.asarray(a["T"], float) * c, np.asarray(b["T"], float)):
+            k = 0
+            while k < min(len(a["T"]), len(b["T"])) and np.array_equal(a["X"][k], b["X"][k]) and float(a["T"][k]) * c == float(b["T"][k]):
+                k += 1
+            mism.append({"what": "replay:time-unit-twin-differs",
+                         "detail": "path %d, unit %s: %d records against %d in unit time; first difference at record %d: state %s at t * c = %r, twin state %s at t = %r"
+                                   % (p, unit_name(c), len(a["T"]), len(b["T"]), k, a["X"][k].tolist() if k < len(a["T"]) else None, float(a["T"][k]) * c if k < len(a["T"]) else None,
+                                      b["X"][k].tolist() if k < len(b["T"]) else None, float(b["T"][k]) if k < len(b["T"]) else None)})
+            return
 
 
 def json_key(d):
@@ -820,10 +924,11 @@ class Configured:
         self.spec, self.params, self.x0, self.t0, self.case, self.tags = spec, dict(params), [int(v) for v in x0], float(t0), case, tags
         self.between = None
         self.handed = []
+        self.u = float(case.get("time_unit") or 1.0)        # unit of time of the case: absolute offsets / thresholds below are in unit time
         h = case.get("history")
         first = dict(params) if not h or h["kind"] not in ("params", "stoch_then_numbers", "deepcopy") else dict(h["params_other"])
         x_first = self.x0 if not h or h["kind"] != "iv" else h["x0_other"]
-        t_first = self.t0 if not h or h["kind"] != "iv" else self.t0 + 1.0
+        t_first = self.t0 if not h or h["kind"] != "iv" else self.t0 + 1.0 / self.u
         self.model = pymodel.build(spec, backend="lambda")
         self.model.parameters = {k: float(v) for k, v in first.items()}
         self._set_iv(x_first, t_first, case.get("x0_form") if not h or h["kind"] != "iv" else h.get("x0_form"), case.get("t0_form"))
@@ -856,8 +961,9 @@ class Configured:
 
     def _history(self, h):
         import contextlib, io
-        case, k, warm = self.case, h["kind"], int(h["warm"])
-        t_far = max(float(case["times"][-1]), self.t0 + 1e-3)
+        case, k, warm, u = self.case, h["kind"], int(h["warm"]), self.u
+        t_far = max(float(case["times"][-1]), self.t0 + 1e-3 / u)
+        near = float(t_far) * u < 1e5                      # a horizon of ordinary length (SIR cases run to 1e6 unit times)
         targ = time_arg_of(case)
         np.random.seed(int(h["np_seed"]))
         restore_params = False
@@ -870,16 +976,16 @@ class Configured:
             self._warm(targ, warm // 2)
             restore_params = True
         elif k == "iv":
-            self._warm(lambda: self.t0 + 1.0 + (float(t_far) - self.t0 if float(t_far) < 1e5 else 50.0), warm)
+            self._warm(lambda: self.t0 + 1.0 / u + (float(t_far) - self.t0 if near else 50.0 / u), warm)
             self._set_iv(self.x0, self.t0, case.get("x0_form"), case.get("t0_form"), via="separate" if h["np_seed"] % 2 else "values")
         elif k == "tau_leftover":
             tot = max(sum(float(v) for v in self.params.values() if v) * max(sum(self.x0), 1), 1e-3)
             self.model.pre_tau = 2.0 / tot
             self.model._epsilon = 0.1
-            self._warm(lambda: (self.t0 + 20.0 / tot) if float(t_far) > 1e5 else float(t_far), max(20, warm // 4), exact=False)
+            self._warm(lambda: (self.t0 + 20.0 / tot) if not near else float(t_far), max(20, warm // 4), exact=False)
             self.tags.append("exact_with_leftover_tau_config")
         elif k == "grid":
-            span = (float(t_far) - self.t0) if float(t_far) < 1e5 else 3.0
+            span = (float(t_far) - self.t0) if near else 3.0 / u
             # another grid (from t0 / from later / one point) and another horizon than those of the judged batch
             og = [self.t0, self.t0 + 0.3 * span, self.t0 + 0.7 * span, self.t0 + 1.3 * span][(0, 1, 3)[h["np_seed"] % 3]:]
             self._warm(lambda: np.array(og), warm // 2)
@@ -901,7 +1007,7 @@ class Configured:
             self._warm(targ, warm)
             restore_params = True
         elif k == "determ":
-            span = (float(t_far) - self.t0) if float(t_far) < 1e5 else 3.0
+            span = (float(t_far) - self.t0) if near else 3.0 / u
             with contextlib.redirect_stdout(io.StringIO()):
                 self.model.integrate(np.linspace(self.t0, self.t0 + span, 5)[1:])
                 self.model.solve_determ(np.linspace(self.t0, self.t0 + span, 4)[1:])
@@ -941,7 +1047,7 @@ def batch_problems(out, case, tags, mism, viol, what):
 
 def sig_suffix(case):
     h = case.get("history")
-    return ((":after-history:" + h["kind"]) if h else "") + (":parallel" if case.get("parallel") else "")
+    return ((":after-history:" + h["kind"]) if h else "") + (":parallel" if case.get("parallel") else "") + ((":time-unit:" + unit_name(case["time_unit"])) if case.get("time_unit") else "")
 
 
 def occupancy_reference(fam, params, dt):
@@ -1054,6 +1160,7 @@ def run_chain(case):
     if hk == "grid": tags += ["grid_shape:%s" % case.get("grid_shape"), "grid_form:%s" % case.get("grid_form")]
     if case.get("boundary"): tags += ["boundary", "boundary:%s:%s" % (hk, case.get("grid_shape"))]
     if case.get("parallel"): tags.append("parallel")
+    if case.get("time_unit"): tags += ["time-unit-scaled", "time-unit:" + unit_name(case["time_unit"])]
     spec = chain_spec(case["families"])
     t0 = float(case["t0"])
     cfg = Configured(spec, case["params"], case["x0"], t0, case, tags)
@@ -1143,9 +1250,10 @@ def run_chain(case):
                               "the simulated paths do not follow the chain's law: %s") % b[0],
                      "signature": "C05:chain:%s" % cls + sig_suffix(case),
                      "detail": "observed %d of %d, reference probability %.6g, exact acceptance region [%d, %d], z = %.1f; %d of %d cells fail; "
-                               "families %s params %s x0 %s (%s) t0 %r requested times %s (%s %s %s) %d iterations per call, history %s"
+                               "families %s params %s x0 %s (%s) t0 %r requested times %s (%s %s %s) %d iterations per call, history %s, unit of time %s"
                                % (b[1], b[2], b[3], b[4], b[5], b[6], len(bad), len(cells.cells), case["families"], case["params"], case["x0"],
-                                  case.get("x0_form"), t0, times, hk, case.get("grid_shape"), case.get("grid_form"), chunk, case.get("history"))})
+                                  case.get("x0_form"), t0, times, hk, case.get("grid_shape"), case.get("grid_form"), chunk, case.get("history"),
+                                  unit_name(case["time_unit"]) if case.get("time_unit") else "1")})
     nontrivial = runs >= (300 if case.get("parallel") else 1000) and any(t > t0 for _, t in judged)
     return {"nontrivial": nontrivial, "mismatches": mism, "violations": viol, "tags": tags,
             "sample": {"kind": "chain", "families": [{"states": f["states"], "edges": [(f["states"][i], f["states"][j], case["params"][p]) for i, j, p in f["edges"]],
@@ -1194,6 +1302,7 @@ def run_sir(case):
         mism.append({"what": "finalsize:pmf", "detail": "lean %s python %s" % (lean["pmf"][:6], [str(v) for v in pmf_py[:6]])})
     pmf = [float(v) for v in pmf_py]
     if case.get("parallel"): tags.append("parallel")
+    if case.get("time_unit"): tags += ["time-unit-scaled", "time-unit:" + unit_name(case["time_unit"])]
     t0 = float(case["t0"])
     cfg = Configured(sir_spec(case["rate_kind"]), {"beta": float(case["beta"]), "gamma": float(case["gamma"]), "N": float(case["pop"])},
                      [s0, i0, r0], t0, case, tags)
@@ -1240,7 +1349,7 @@ def run_sir(case):
         if t == t0:
             tags.append("judged-at-t0")
             cells.add("requested time %d = t0: runs whose reported state is not the initial state" % (ti + 1), int(np.sum(np.any(o != x0v, axis=1))), runs, 0.0)
-        elif t - t0 < 1e3:
+        elif (t - t0) * float(case.get("time_unit") or 1.0) < 1e3:
             # every event changes the state and no state is visited twice: the state at t is still the initial one iff no event happened
             cells.add("requested time %d (t=%r): runs still in the initial state (no event yet: exp(-total rate * (t - t0)))" % (ti + 1, t),
                       int(np.sum(np.all(o == x0v, axis=1))), runs, math.exp(-float(beta * s0 * i0 / pop + gamma * i0) * (t - t0)))
@@ -1259,9 +1368,10 @@ def run_sir(case):
         viol.append({"what": ("SIR final size does not follow the embedded jump chain's law: %s" if what == "final-size" else
                               "the simulated SIR paths do not follow the chain's law: %s") % b[0], "signature": "C05:sir:%s" % what + sig_suffix(case),
                      "detail": "observed %d of %d, exact probability %.6g, exact acceptance region [%d, %d], z = %.1f; %d of %d cells fail; "
-                               "S0=%d I0=%d R0=%d beta=%r gamma=%r N=%r (%s) x0 as %s, requested times %s (%s %s %s), %d iterations per call, history %s"
+                               "S0=%d I0=%d R0=%d beta=%r gamma=%r N=%r (%s) x0 as %s, requested times %s (%s %s %s), %d iterations per call, history %s, unit of time %s"
                                % (b[1], b[2], b[3], b[4], b[5], b[6], len(bad), len(cells.cells), s0, i0, r0, case["beta"], case["gamma"], case["pop"], case["rate_kind"],
-                                  case.get("x0_form"), times, hk, case.get("grid_shape"), case.get("grid_form"), chunk, case.get("history"))})
+                                  case.get("x0_form"), times, hk, case.get("grid_shape"), case.get("grid_form"), chunk, case.get("history"),
+                                  unit_name(case["time_unit"]) if case.get("time_unit") else "1")})
     return {"nontrivial": runs >= (300 if case.get("parallel") else 1000), "mismatches": mism, "violations": viol, "tags": tags,
             "sample": {"kind": "sir", "s0": s0, "i0": i0, "beta": case["beta"], "gamma": case["gamma"], "pop": case["pop"], "runs": runs,
                        "times": times, "horizon_kind": hk, "grid_shape": case.get("grid_shape"), "grid_form": case.get("grid_form"), "iterations_per_call": chunk,
